@@ -56,7 +56,7 @@ def lit (fs : List Sexp) : R Lit := do
   | .atom a => match a.toInt? with
     | some i => pure (.int i)
     | none => .error "Literal.Value:atom"
-  | .list [.atom "f64", .str s] => match parseDec s with
+  | .list [.atom "f64", .str s] => match parseDec (Driver.SqlSexp.plainDecimal s) with
     | some d => pure (.dec d)
     | none => .error "Literal.Value:float-form"
   | v => .error s!"Literal.Value:{tagOf v}"
